@@ -20,4 +20,8 @@ var corpus = []string{
 	// KF-C04-4: map<blob,int> column: RowData / MapScan / SliceMap panic in reflect.MapOf
 	"rowsx slicemap A 4 4 1 N N N 0 RES ROWS N G 6b73 74 1 6d m n 3 n 9 0 84000001080000002000000002000000010000000100026b7300017400016d00210003000900000000",
 	"rowsx mapscan A 4 4 1 N N N 0 RES ROWS N G 6b73 74 1 6d m n 3 n 9 0 84000001080000002000000002000000010000000100026b7300017400016d00210003000900000000",
+	// skip-metadata through a real Session: prepared result metadata (column a blob), NO_METADATA page with paging state 0708
+	"skip 4 4 1 N N N 0 RES PREP 01 0 N G 6b73 74 1 70 n 3 M N G 6b73 74 1 61 n 3 8400000108000000330000000400010100000001000000010000000000026b730001740001700003000000010000000100026b730001740001610003 ROWSRESP 4 1 N N N 0 RES ROWS Y 0708 O 1 0 1 1 b 78 84000001080000001b000000020000000600000001000000020708000000010000000178",
+	// KF-C04-5: the page carries its own metadata (column b varchar) although the driver asked to skip it: ignored
+	"skipx 4 4 1 N N N 0 RES PREP 01 0 N G 6b73 74 1 70 n 3 M N G 6b73 74 1 61 n 3 8400000108000000330000000400010100000001000000010000000000026b730001740001700003000000010000000100026b730001740001610003 ROWSRESP 4 1 N N N 0 RES ROWS N G 6b73 74 1 62 n 13 1 1 b 78 84000001080000002100000002000000010000000100026b73000174000162000d000000010000000178",
 }
